@@ -18,6 +18,7 @@ import (
 	logging "github.com/ipfs/go-log/v2"
 	"github.com/libp2p/go-libp2p/core/crypto"
 
+	coreda "github.com/evstack/ev-node/core/da"
 	coresequencer "github.com/evstack/ev-node/core/sequencer"
 	"github.com/evstack/ev-node/block"
 	"github.com/evstack/ev-node/pkg/config"
@@ -146,6 +147,10 @@ type Chain struct {
 	Datas   []*types.Data
 	Calls   []ExecCall // the aggregator's execution calls, one per block
 	States  []types.State
+	// what the aggregator would post to the DA layer: one blob per header, one signed-data blob per
+	// non-empty block (nil for empty blocks), built by the real createSignedDataToSubmit
+	HeaderBlobs [][]byte
+	DataBlobs   [][]byte
 }
 
 func quietLogger() logging.EventLogger {
@@ -215,6 +220,32 @@ func Produce(seed int64, initial uint64, batches []Batch, rootDir string) (*Chai
 		c.Headers = append(c.Headers, h)
 		c.Datas = append(c.Datas, d)
 	}
+	sds, err := m.VerifCreateSignedDataToSubmit(ctx)
+	if err != nil {
+		return nil, fmt.Errorf("createSignedDataToSubmit: %w", err)
+	}
+	c.DataBlobs = make([][]byte, len(c.Headers))
+	for _, sd := range sds {
+		i := int(sd.Height() - initial)
+		if i < 0 || i >= len(c.Headers) {
+			return nil, fmt.Errorf("signed data at height %d outside the chain", sd.Height())
+		}
+		bz, err := sd.MarshalBinary()
+		if err != nil {
+			return nil, err
+		}
+		c.DataBlobs[i] = bz
+	}
+	for i, h := range c.Headers {
+		bz, err := h.MarshalBinary()
+		if err != nil {
+			return nil, err
+		}
+		c.HeaderBlobs = append(c.HeaderBlobs, bz)
+		if (len(c.Datas[i].Txs) > 0) != (c.DataBlobs[i] != nil) {
+			return nil, fmt.Errorf("block %d: signed data blob presence does not match its transactions", i)
+		}
+	}
 	c.Calls = append(c.Calls, ex.Calls...)
 	if len(c.Calls) != len(c.Headers) {
 		return nil, fmt.Errorf("aggregator made %d execution calls for %d blocks", len(c.Calls), len(c.Headers))
@@ -237,6 +268,48 @@ type Node struct {
 	Dead    bool  // SyncLoop returned by itself (error on errCh)
 	LoopErr error
 	BootErr error
+	// DA ingress scenarios: a DA layer for the real RetrieveLoop, and a hook on the height record
+	DA    coreda.DA
+	Retr  bool
+	rdone chan struct{}
+	Hook  *Hook
+}
+
+// Hook lets a scenario act at the instant a block commits (the SetHeight write of height HoldAt /
+// StopAt): hold the SyncLoop there until released, or cancel the node's context right there.
+type Hook struct {
+	HoldAt  uint64
+	Release chan struct{}
+	Held    bool
+	StopAt  uint64
+	Stopped bool
+	Commits int
+}
+
+type hookDS struct {
+	*crashds.DS
+	n *Node
+}
+
+func (h *hookDS) Put(ctx context.Context, k ds.Key, v []byte) error {
+	err := h.DS.Put(ctx, k, v)
+	hk := h.n.Hook
+	if hk != nil && k.String() == "/t" && len(v) == 8 {
+		height := binary.LittleEndian.Uint64(v)
+		hk.Commits++
+		if hk.StopAt != 0 && height == hk.StopAt {
+			hk.Stopped = true
+			hk.StopAt = 0
+			h.n.cancel()
+		}
+		if hk.HoldAt != 0 && height == hk.HoldAt {
+			hk.HoldAt = 0
+			hk.Held = true
+			<-hk.Release
+			hk.Held = false
+		}
+	}
+	return err
 }
 
 // NewNode boots a full node (no signer) on the given datastore and starts the unmodified SyncLoop.
@@ -248,8 +321,14 @@ func NewNode(c *Chain, rootDir string, d *crashds.DS, ex *Exec) *Node {
 
 func (n *Node) boot() {
 	n.Dead, n.LoopErr, n.BootErr = false, nil, nil
-	n.Store = store.New(n.DS)
-	m, err := block.NewManager(context.Background(), nil, baseConfig(n.RootDir), n.Chain.Genesis, n.Store, n.Exec, &Seq{}, nil, quietLogger(), nil, nil,
+	if n.Hook != nil {
+		n.Store = store.New(&hookDS{DS: n.DS, n: n})
+	} else {
+		n.Store = store.New(n.DS)
+	}
+	ctx, cancel := context.WithCancel(context.Background())
+	n.cancel = cancel
+	m, err := block.NewManager(context.Background(), nil, baseConfig(n.RootDir), n.Chain.Genesis, n.Store, n.Exec, &Seq{}, n.DA, quietLogger(), nil, nil,
 		&bcast[*types.SignedHeader]{}, &bcast[*types.Data]{}, block.NopMetrics(), 1, 1, block.DefaultManagerOptions())
 	if err != nil {
 		n.BootErr = err
@@ -257,14 +336,20 @@ func (n *Node) boot() {
 		return
 	}
 	n.M = m
-	ctx, cancel := context.WithCancel(context.Background())
-	n.cancel = cancel
 	n.errCh = make(chan error, 1)
 	n.done = make(chan struct{})
 	go func() {
 		defer close(n.done)
 		m.SyncLoop(ctx, n.errCh)
 	}()
+	n.rdone = nil
+	if n.Retr {
+		n.rdone = make(chan struct{})
+		go func() {
+			defer close(n.rdone)
+			m.RetrieveLoop(ctx)
+		}()
+	}
 	synctest.Wait()
 }
 
@@ -306,7 +391,13 @@ func (n *Node) Stop() {
 		return
 	}
 	n.cancel()
+	if n.Hook != nil && n.Hook.Held {
+		n.Hook.Release <- struct{}{}
+	}
 	<-n.done
+	if n.rdone != nil {
+		<-n.rdone
+	}
 	// drain what the dead loop left unread
 	for {
 		select {
@@ -357,3 +448,10 @@ func (n *Node) Block(h uint64) (*types.SignedHeader, *types.Data, bool) {
 }
 
 var _ ds.Batching = (*crashds.DS)(nil)
+
+func blockHeaderEvent(h *types.SignedHeader, da uint64) block.NewHeaderEvent {
+	return block.NewHeaderEvent{Header: h, DAHeight: da}
+}
+func blockDataEvent(d *types.Data, da uint64) block.NewDataEvent {
+	return block.NewDataEvent{Data: d, DAHeight: da}
+}
